@@ -219,6 +219,9 @@ type World struct {
 	// UseDefaults: pass zero option values so that Create uses its
 	// documented defaults (which S, R then hold).
 	UseDefaults bool
+	// SharedLate: another file repeats slices of file 0 that lie beyond
+	// its first 16 KiB (set by grow16k).
+	SharedLate bool
 	// Created holds every file the Create call wrote (path -> bytes).
 	Created map[string][]byte
 	// Bystanders are unrelated files beside the set.
@@ -297,7 +300,7 @@ var par1Stems = []string{"f%d.dat", "data%d.bin", "with space %d.txt", "héllo%d
 
 // (the last ones contain an archive extension or a volume-like part
 // inside the name)
-var baseNames = []string{"set", "my set", "archive.v1", "x", "Set-2_b", "backup.part1", "x.par2", "a.vol01+02", "old.p01.new"}
+var baseNames = []string{"set", "my set", "archive.v1", "x", "Set-2_b", "backup.part1", "x.par2", "a.vol01+02", "old.p01.new", "100% done", "a%sb%dc%v"}
 
 // GenWorld draws a file set and puts it on a fresh simulated disk.
 func GenWorld(r *Run, o GenOpts) *World {
@@ -305,9 +308,9 @@ func GenWorld(r *Run, o GenOpts) *World {
 	t.Begin("world")
 	defer t.End()
 	w := &World{Par1: o.Par1, Disk: simdisk.NewMem(), Bystanders: map[string][]byte{}, Exps: map[string][]int{}}
-	dirs := []string{"/w/set", "/w", "/data/long path/x", "/w/a/b/c", "/w/set.parity", "/w/x.par2 files/y.par"}
-	w.Dir = dirs[t.Pick([]int{12, 2, 2, 2, 1, 1}, "dir")]
-	w.Base = baseNames[t.Pick([]int{24, 4, 4, 4, 4, 1, 1, 1, 1}, "base")]
+	dirs := []string{"/w/set", "/w", "/data/long path/x", "/w/a/b/c", "/w/set.parity", "/w/x.par2 files/y.par", "/w/50% off/%d"}
+	w.Dir = dirs[t.Pick([]int{12, 2, 2, 2, 1, 1, 1}, "dir")]
+	w.Base = baseNames[t.Pick([]int{24, 4, 4, 4, 4, 1, 1, 1, 1, 1, 1}, "base")]
 	w.Disk.MkdirAll(w.Dir)
 	w.Disk.Cwd = w.Dir
 	switch t.Pick([]int{5, 1, 1}, "cwd") {
@@ -366,9 +369,9 @@ func GenWorld(r *Run, o GenOpts) *World {
 	if len(o.SliceSizes) == 0 && t.Bool(1, 100, "huge-slice") {
 		// (gopar pads a fresh copy of the window at each of the last S
 		// offsets of a damaged file, so these runs cost O(S^2))
-		hs := []int{16384, 16388, 32768, 65536, 65540}
+		hs := []int{16384, 16388, 32768, 32772, 40000, 65536, 65540, 100000}
 		if !r.Thorough() {
-			hs = hs[:3]
+			hs = hs[:5]
 		}
 		w.S = hs[t.Draw(len(hs), "huge-slice-size")]
 		r.Probe("slice>=16KiB")
@@ -582,6 +585,20 @@ func GenWorld(r *Run, o GenOpts) *World {
 				ssz = 16
 			}
 			data = expandContent(kind, seed, size, ssz)
+			if !o.RandomOnly && !o.Par1 && i > 0 && len(data) >= 2*w.S && t.Bool(1, 8, "shared-slices") {
+				// a few slices of this file repeat slices of an earlier file
+				// (shared blocks, partial copies), at aligned positions
+				src := w.Files[t.Draw(len(w.Files), "share-with")].Data
+				if len(src) >= w.S {
+					g := prng{s: t.Draw64(0, "share-seed")}
+					for c := 0; c < 1+int(g.next()%3); c++ {
+						from := int(g.next()%uint64(len(src)/w.S)) * w.S
+						to := int(g.next()%uint64(len(data)/w.S)) * w.S
+						copy(data[to:to+w.S], src[from:from+w.S])
+					}
+					r.Probe("files-sharing-some-slices")
+				}
+			}
 		}
 		w.Files = append(w.Files, ref.Protected{Name: name, Data: data})
 		t.End()
